@@ -47,15 +47,47 @@ type scenario struct {
 
 func (s *scenario) op(line string) string {
 	res := s.e.Exec(line, nil)
-	s.lines = append(s.lines, [2]string{line, res})
+	if res != "skipped-after-stuck" {
+		s.lines = append(s.lines, [2]string{line, res})
+	}
 	return res
 }
 
 func (s *scenario) opLt(line string, lb *types.LightBlock) string {
 	res := s.e.Exec(line, lb)
-	s.lines = append(s.lines, [2]string{line, res})
+	if res != "skipped-after-stuck" {
+		s.lines = append(s.lines, [2]string{line, res})
+	}
 	return res
 }
+
+var probeSeq int
+
+// liveness probe: step every background loop once and deliver one well-formed light block whose transactions are
+// all pooled — it must be rebuilt and posted. A lock leaked by an earlier (recovered) panic, a wedged channel or a
+// dead loop shows up here as a stuck call (watchdog) or as a probe that is not processed.
+func (s *scenario) probe() {
+	if s.e.Stuck {
+		return
+	}
+	probeSeq++
+	id := 9000 + probeSeq%900
+	s.op("pool up 1")
+	for _, l := range []string{"tick", "reqtick", "dtick"} {
+		r := s.op(l)
+		if r == "panic" || r == "stuck" || r == "skipped-after-stuck" {
+			return
+		}
+	}
+	s.op(fmt.Sprintf("pool push %s %d -", s.e.Reg.Sh(id), id))
+	res := s.op(fmt.Sprintf("lt kprobe%d 1 1 2 0 1 %s,%s", probeSeq, s.e.Reg.Sh(0), s.e.Reg.Sh(id)))
+	if res != fmt.Sprintf("posted 0,%d", id) && res != "stuck" && res != "skipped-after-stuck" {
+		pred("C33|liveness-probe>addLtBlock|well-formed-light-block-not-processed",
+			"got "+res+" after: "+strings.Join(s.e.History, " ; "))
+	}
+}
+
+const maxStuck = 3 // after that many stuck calls the violation is established: stop generating
 
 // the model clock is symbolic: light blocks wait `ltTimeout` ms; the harness only ever moves the clock to
 // 0, 100 000 or 290 000 ms (types.SetTimeDelta clamps at ±300 s), so a decision flips only if a scenario
@@ -73,6 +105,12 @@ func (s *scenario) flush(kind string) {
 	}
 	out.Stat("scenario_"+kind, 1)
 	out.Stat("ops", int64(len(s.lines)))
+	if s.e.NStuck >= maxStuck {
+		// abandoned goroutines may hold locks of the old instances; nothing more to learn from this run
+		out.Stat("aborted_after_stuck_calls", int64(s.e.NStuck))
+		out.Flush()
+		os.Exit(0)
+	}
 }
 
 func begin(e *p2pexec.Executor, multi bool) *scenario {
@@ -312,6 +350,9 @@ func ltScenario(e *p2pexec.Executor, r *gen.Rand, multi bool) {
 		res := s.op(fmt.Sprintf("lt %s %d %d %d %s %d %s", key, hasHeader, height, txCount, miner, r.Intn(p2pexec.NPeers), p2pexec.JoinOr(hashes, ",")))
 		out.Stat("lt_"+strings.Fields(res)[0], 1)
 		s.op("pool up 1")
+		if res == "panic" && r.Chance(1, 2) {
+			s.probe() // malformed input just went through the recover: is everything still alive?
+		}
 		keyN++
 	}
 	// background processing: ticks, late arrivals, clock
@@ -352,6 +393,7 @@ func ltScenario(e *p2pexec.Executor, r *gen.Rand, multi bool) {
 	if multi {
 		s.op("dtick")
 	}
+	s.probe()
 }
 
 func joinInts(l []int) string {
@@ -417,7 +459,15 @@ func peerMsgScenario(e *p2pexec.Executor, r *gen.Rand, multi bool) {
 	if s.op("reqtick") == "panic" {
 		return
 	}
-	s.op("dtick")
+	if s.op("dtick") == "panic" {
+		return
+	}
+	// liveness probes for the request / response machinery
+	s.op("chain items 1")
+	s.op(fmt.Sprintf("breq 2 %d", cur))
+	probeSeq++
+	s.op(fmt.Sprintf("bresp 1 b%dh7", 1000+probeSeq))
+	s.probe()
 }
 
 // ---------------------------------------------------------------- topic validators
@@ -621,6 +671,7 @@ func byteFuzzScenario(e *p2pexec.Executor, r *gen.Rand) {
 	if s.op("tick") != "panic" {
 		s.op("now 290000")
 		s.op("tick")
+		s.probe()
 	}
 	// the other topics: decode + receive must not escape the recover; validators must not panic
 	blk := &types.Block{Height: 5, TxHash: []byte("t"), Txs: []*types.Transaction{e.Reg.Tx(1), e.Reg.Tx(2)}}
@@ -697,7 +748,7 @@ func runChild(kind string) string {
 			return "crashed"
 		}
 		return "child-error"
-	case <-time.After(10 * time.Minute):
+	case <-time.After(4 * time.Minute):
 		_ = cmd.Process.Kill()
 		return "child-timeout"
 	}
